@@ -235,6 +235,7 @@ pub struct SinkLog {
     pub intr_during_drop: usize,
     pub intr_during_flush_op: usize,
     pub largest_offer: usize,
+    pub vectored_calls: usize,
     pub livelock: bool,
 }
 
@@ -356,6 +357,14 @@ impl Write for SimSink {
                 Ok(n)
             }
         }
+    }
+    /// A sink may implement vectored writes natively (pipes, sockets and files do): the offered
+    /// slices count as one contiguous offer and a partial accept may end anywhere, also in the
+    /// middle of a later slice.
+    fn write_vectored(&mut self, bufs: &[io::IoSlice<'_>]) -> io::Result<usize> {
+        let joined: Vec<u8> = bufs.iter().flat_map(|b| b.iter().copied()).collect();
+        self.0.borrow_mut().log.vectored_calls += 1;
+        self.write(&joined)
     }
     fn flush(&mut self) -> io::Result<()> {
         Ok(())
